@@ -101,18 +101,32 @@ def convert(raw, sid):
         hp = {"prog": "const", "children": [bad]}
     elif prog == "all":
         hp = {"prog": "const", "children": [desired(n) for n in names]}
+    elif prog == "echo":
+        hp = {"prog": "echo", "clean": True, "children": [desired(n) for n in names]}
+    elif prog == "echoraw":
+        hp = {"prog": "echo", "children": [desired(n) for n in names]}
+    elif prog == "ownedref":
+        d = desired(names[0])
+        d["owners"] = [{"uid": puid, "kind": sc["parentKind"], "name": "p", "ctrl": False}]
+        hp = {"prog": "const", "children": [d]}
     else:
         hp = {"prog": "ordinal", "children": [desired(n) for n in names]}
     if kind == "composite":
         hp["status"] = {"ok": "1"}
     method = raw["method"]
     cfg = {"kind": kind, "parentRes": sc["parentRes"], "children": [{"res": sc["childRes"], "method": method}], "genSel": gensel}
+    if method == "SSA":
+        # server-side apply ignores the update strategy
+        cfg["children"][0]["method"] = "-"
+        cfg["apply"] = "ssa"
     if kind == "decorator":
         cfg["dselLabels"] = {"matchLabels": {"deco": "yes"}}
         key = "verif.example/v1:%s:%s:p" % (sc["parentKind"], sc["pns"])
     else:
         key = ("%s/p" % sc["pns"]) if sc["pns"] else "p"
     nsync = int(raw["syncs"]) + 2
+    if prog in ("echo", "echoraw"):
+        nsync += 2      # one more write re-records the last-applied annotation in the echoed form
     sched = []
     for _ in range(nsync):
         sched += [{"s": "sync", "a": "A", "key": key}, {"s": "run", "a": "A"}, {"s": "deliver"}]
@@ -123,8 +137,11 @@ def convert(raw, sid):
             "fix": [{"kind": sc["childKind"], "ns": sc["cns"], "name": n, "fields": fixf, "labels": dict(match_labels) if kind == "composite" else dict(hook_labels)}
                     for n in sorted(raw["fix"])],
             "parentUid": puid, "parentNs": sc["pns"], "marker": "dc" if kind == "decorator" else "",
-            "updatable": method in ("Recreate", "InPlace"),
+            # an echoing hook wants observed children as they are: no content is prescribed
+            "updatable": method in ("Recreate", "InPlace", "SSA") and prog not in ("echo", "echoraw"),
         })
         if kind == "composite":
             expect["sel"] = {"ml": dict(match_labels), "me": []}
+        if prog in ("echo", "echoraw"):
+            expect["echo"] = True
     return {"id": sid, "fam": "conv", "cfg": cfg, "objs": objs, "hook": {"sync": hp}, "sched": sched, "expect": expect}
